@@ -316,7 +316,9 @@ WriteDirsTags(e) ==
                     \/ ~e.leaves[k].exact
                     \/ ~A!Inside(e.leaves[k].off, e.leaves[k].len, N(e.leaf_total))
               THEN {"C06:pointer_fields_wrong"} ELSE {})
-       \cup (IF A!ResolveDir(rootE, e.leaves, 1) # E THEN {"C06:resolution_differs_from_input_entries"} ELSE {})
+       \* pointer k names leaf k (checked above), so the resolution is the concatenation of the leaves in root order
+       \cup (IF Len(rootE) # Len(e.leaves) \/ FlattenSeq([k \in 1..Len(e.leaves) |-> e.leaves[k].entries]) # E
+             THEN {"C06:resolution_differs_from_input_entries"} ELSE {})
 TrWriteDirs ==
   /\ IsEvent("WriteDirs")
   /\ Emit(WriteDirsTags(Rec[l]))
